@@ -167,6 +167,30 @@ def render(template_text, flags=(), canary=False):
         if s.startswith('//@endif'):
             i += 1
             continue
+        if s.startswith('//@ifexpr ') or s.startswith('//@ifnotexpr '):
+            # conditional on an expression anchor existing in the current source (lets a
+            # unit carry contracts for two shapes of the same code)
+            neg = s.startswith('//@ifnotexpr ')
+            a_ = _kv(s.split(' ', 1)[1])
+            try:
+                fn_ = extract.find_fn(a_['rel'], a_['fn'], a_.get('within'), int(a_.get('fnth', 0)))
+                extract.find_in_fn(fn_, a_['start'], a_.get('until'), int(a_.get('nth', 0)), a_.get('skip'))
+                present = True
+            except AnchorLost:
+                present = False
+            if present == neg:
+                depth = 1
+                i += 1
+                while i < len(lines) and depth > 0:
+                    t = lines[i].strip()
+                    if t.startswith('//@if'):
+                        depth += 1
+                    elif t.startswith('//@endif'):
+                        depth -= 1
+                    i += 1
+                continue
+            i += 1
+            continue
         if s.startswith('//@fn '):
             args = _kv(s[6:])
             i += 1
@@ -289,7 +313,7 @@ def render(template_text, flags=(), canary=False):
             g.extracted.append(it.record())
             txt, n = rewrite.r12_strip_comments(it.text)
             # strip inner attributes on fields/variants (serde etc.) — logged as R9
-            txt2, k = re.subn(r'#\[[^\]]*\]\s*', '', txt)
+            txt2, k = _strip_attrs(txt)
             if k:
                 g.rewrites.append({'item': args['name'], 'rule': 'R9(field attributes dropped)', 'n': k})
             txt2 = re.sub(r'\bpub\(crate\)', 'pub', txt2)
@@ -313,7 +337,15 @@ def render(template_text, flags=(), canary=False):
             ex = extract.find_in_fn(fn, args['start'], args.get('until'), int(args.get('nth', 0)), args.get('skip'))
             g.extracted.append(ex.record())
             txt, _ = rewrite.r12_strip_comments(ex.text)
-            emit(txt + '\n', block=(ex.name, args.get('serves', '').split(',') if args.get('serves') else []))
+            for key in sorted(k for k in args if k.startswith('sub')):
+                pat, rep = args[key].split('=>', 1)
+                txt, k = re.subn(pat.strip(), rep.strip(), txt)
+                g.rewrites.append({'expr': ex.name, 'rule': 'sub %s => %s' % (pat.strip(), rep.strip()), 'n': k})
+            for r_ in [x for x in args.get('rw', '').split(',') if x]:
+                txt, k = rewrite.REWRITES[r_](txt)
+                g.rewrites.append({'expr': ex.name, 'rule': r_, 'n': k})
+            emit(txt + '\n', block=(args.get('block') or ex.name, args.get('serves', '').split(',') if args.get('serves') else []))
+            g.fn_blocks.add(args.get('block') or ex.name)
             i += 1
             continue
         if s.startswith('//@canary '):
@@ -333,6 +365,32 @@ def render(template_text, flags=(), canary=False):
         if m:
             g.labels[no] = m.group(1)
     return g
+
+
+def _strip_attrs(txt):
+    """remove `#[...]` attributes token-wise (attribute arguments may contain `]` inside
+    string literals, e.g. #[regex("[a-z]+")])"""
+    toks = lex(txt)
+    out = []
+    i = 0
+    n = 0
+    while i < len(toks):
+        t = toks[i]
+        if t[0] == 'punct' and t[1] == '#':
+            j = i + 1
+            while j < len(toks) and toks[j][0] in ('ws', 'lcomment', 'bcomment'):
+                j += 1
+            if j < len(toks) and toks[j][1] == '[':
+                c = match_close(toks, j)
+                i = c + 1
+                n += 1
+                # swallow following whitespace
+                while i < len(toks) and toks[i][0] == 'ws':
+                    i += 1
+                continue
+        out.append(t[1])
+        i += 1
+    return ''.join(out), n
 
 
 def _pub_fields(txt):
